@@ -142,7 +142,15 @@ def build(targets, timeout=1500):
                                  'message': msg.strip()[:600]})
             if not failures:
                 failures.append({'file': '?', 'line': 0, 'theorem': None, 'message': log[-1500:]})
-        return rc == 0, failures, log
+        # the modules the generated case files import (evaluation of the model), whether or not the property's own theorems need
+        # them: they must never be stale with respect to a regenerated Gen/Tables.vo
+        support = sorted(f[:-2] + '.vo' for f in source_files() if f.startswith('Model/')) + \
+            ['Resolver/C05Obl.vo', 'Resolver/C09Obl.vo', 'Resolver/Specs.vo', 'Proofs/ClassRoundTrip.vo']
+        support = [t for t in support if t not in targets]
+        rc2, log2 = sh(['make', '-k', '-j', str(NCPU)] + support, timeout, cwd=COQ)
+        if rc2 != 0 and rc == 0:
+            failures.append({'file': 'support-modules', 'line': 0, 'theorem': None, 'message': log2[-1500:]})
+        return rc == 0 and rc2 == 0, failures, log
 
 
 def hygiene():
